@@ -45,7 +45,10 @@ def gen_parts(quick):
                   GSizes="{1200}", GDts="{10000, 60000}", GDelays="{8000}" if quick else "{0, 8000}", GCes="{1}", GSpaces="{3}", GFlagSet="{1, 2, 3}", Ops=allops)
     hs = dict(base, Start='"fresh"', Depth=6 if quick else 7, Script="<- ScriptHs" if quick else "<- ScriptHs2", MaxPk=2, GSizes="{1200}", GDts="{60000}",
               GDelays="{0}", GCes="{}", GSpaces="{1, 2, 3}", GFlagSet="{1}", Ops=allops)
-    return [("allpaths/est-loss", est_loss, None), ("allpaths/est-cc", est_cc, None), ("allpaths/handshake", hs, None)]
+    loss4 = dict(est_loss, Depth=7 if quick else 9, Script="<- ScriptLoss" if quick else "<- ScriptLoss2", Ops=allops)
+    pto = dict(hs, Depth=8 if quick else 10, Script="<- ScriptPto" if quick else "<- ScriptPto2", GDts="{150000}" if quick else "{150000, 400000}")
+    return [("allpaths/est-loss", est_loss, None), ("allpaths/est-loss4", loss4, None), ("allpaths/est-cc", est_cc, None),
+            ("allpaths/handshake", hs, None), ("allpaths/pto", pto, None)]
 
 
 def sim_parts(quick):
@@ -55,7 +58,7 @@ def sim_parts(quick):
                     Ops='{"send", "gsend", "burst", "quota", "ack", "acktop", "adv", "tick"}')
     deep_hs = dict(base, Start='"fresh"', BurstMode="TRUE", Depth=40,
                    Ops='{"send", "gsend", "quota", "ack", "acktop", "adv", "tick", "discard", "phase"}')
-    n = 150 if quick else 3000
+    n = 100 if quick else 3000
     return [("walks/est", deep_est, {"num": n, "depth": 70}), ("walks/handshake", deep_hs, {"num": n, "depth": 50})]
 
 
